@@ -658,11 +658,40 @@ func runC07(c *core.Ctx) {
 			// member's interests and the append: look from every member call
 			bad := false
 			var wp []string
+			// a comparison loop written out in place is passed through its exit test, also when what was collected
+			// so far is empty and the comparison itself is not reached: the loop compares, and does not hold the append
+			scanExit := map[ssa.Instruction]bool{}
+			if g := ci.Parent(); g != nil {
+				for _, lp := range core.NaturalLoops(g) {
+					if lp[ci.Block()] {
+						continue
+					}
+					compares := false
+					for b := range lp {
+						for _, in := range b.Instrs {
+							if cj, ok := in.(ssa.CallInstruction); ok && callsEquals(cj) {
+								compares = true
+							}
+						}
+					}
+					if !compares {
+						continue
+					}
+					for b := range lp {
+						if ifi := core.BlockIf(b); ifi != nil && (!lp[b.Succs[0]] || !lp[b.Succs[1]]) {
+							scanExit[ifi] = true
+						}
+					}
+				}
+			}
 			for _, mc := range memberCalls {
 				if _, r := core.Reach(fn, mc, isTarget(ci), nil, nil); !r {
 					continue
 				}
 				if path, reached := core.Reach(fn, mc, isTarget(ci), nil, func(in ssa.Instruction) bool {
+					if scanExit[in] {
+						return true
+					}
 					cj, ok := in.(ssa.CallInstruction)
 					return ok && callsEquals(cj)
 				}); reached {
